@@ -55,3 +55,9 @@ Qed.
 (* network_from_json: the edge leaving a Fiber (any subclass) weighs its length, any other edge 0.01 m = 1 cm *)
 Lemma gen_edge_weight f l : g_edge_weight f l = edge_weight f l.
 Proof. reflexivity. Qed.
+
+(* compute_path_dsjctn step 4 (members of a synchronisation vector): the include list is tested with ispart against the
+   FULL element path of the candidate; one STRICT hop makes the list strict *)
+Lemma gen_vector_include nl full short strict_list :
+  g_vector_include_ok nl full short = ispart nl full /\ g_vector_strict strict_list = existsb (fun b => b) strict_list.
+Proof. split; reflexivity. Qed.
